@@ -11,8 +11,11 @@ TRInv == Ev("RInv") /\ RInv(E.g)
 \* every probe of the lookup must be answered by the version the lookup loaded
 TRRet == /\ Ev("RRet") /\ RRet(E.g)
          /\ \A p \in DOMAIN E.res : E.res[p] = snap[E.g]
+\* a build hands back the table of its own text: res is the version all probes of the built table answer with
+TBInv == Ev("BInv") /\ BInv(E.g, E.v)
+TBRet == Ev("BRet") /\ BRet(E.g) /\ E.res = btext[E.g]
 Silent == l' = l /\ (WLin \/ \E r \in Readers : RLin(r))
-TNext == TWInv \/ TWRet \/ TRInv \/ TRRet \/ Silent
+TNext == TWInv \/ TWRet \/ TRInv \/ TRRet \/ TBInv \/ TBRet \/ Silent
 TSpec == TInit /\ [][TNext]_<<vars, l>>
 HW == TLCSet(1, IF TLCGet(1) < l THEN l ELSE TLCGet(1))
 Accepted == TLCGet(1) = Len(TraceLog) + 1
